@@ -72,6 +72,11 @@ func NewSimpleURL(u *url.URL) (SimpleURL, error) {
 				}
 			}
 		case name == "filter":
+			// Like the other parameters, an empty value is ignored.
+			if len(values.Get(name)) == 0 {
+				break
+			}
+
 			var err error
 			if values.Get(name)[0] != '{' {
 				// It should be a label
